@@ -976,3 +976,133 @@ func c01R8(c *Ctx, r *Report) {
 			"identifier lowering returns the incoming SSA value of a parameter although the parameter has storage: writes to it are not seen by this read")
 	}
 }
+
+func init() {
+	lateInits = append(lateInits, func() {
+		props["C01"].Quick = append(props["C01"].Quick, c01R9)
+		props["C18"].Quick = append(props["C18"].Quick, c01R9)
+		props["C10"].Quick = append(props["C10"].Quick, c10R6)
+		props["C01"].Explanation += " (R9) by-value aggregate parameters and receivers (struct, fixed array, large integer), which arrive as pointers, are registered with their declared type wherever a signature wraps them in a reference, and buildFuncBody copies them into an entry-block slot."
+		props["C10"].Explanation += " (R6) in MIR lowering a minus sign applied to an integer literal is emitted as one constant of the expression's type, and other unary operands are converted to the type of the operation."
+	})
+}
+
+// C01.R9: by-value aggregates are copied by the callee.
+func c01R9(c *Ctx, r *Report) {
+	const rule = "C01.R9"
+	r.Describe(rule, "mir/gen: every signature lowering that wraps a by-ref-represented parameter/receiver type in a reference records the declared type (byValueParams); buildFuncBody memcpy's those parameters into an entry-block slot")
+	n := 0
+	for _, fn := range c.AllFns(pkgMIRGen) {
+		info := fn.Info()
+		wraps, records := 0, false
+		ast.Inspect(fn.Decl.Body, func(x ast.Node) bool {
+			ifs, ok := x.(*ast.IfStmt)
+			if ok {
+				if cl, isCall := ast.Unparen(ifs.Cond).(*ast.CallExpr); isCall {
+					if f := callee(info, cl); f != nil && f.Name() == "needsByRefType" {
+						for _, st := range ifs.Body.List {
+							if as, isAs := st.(*ast.AssignStmt); isAs && len(as.Rhs) == 1 {
+								if rc, isRC := as.Rhs[0].(*ast.CallExpr); isRC && strings.HasSuffix(exprStr(rc.Fun), "NewReference") {
+									wraps++
+								}
+							}
+						}
+					}
+				}
+			}
+			if as, ok := x.(*ast.AssignStmt); ok && len(as.Lhs) == 1 {
+				if ix, isIx := as.Lhs[0].(*ast.IndexExpr); isIx && strings.HasSuffix(exprStr(ix.X), ".byValueParams") {
+					records = true
+				}
+			}
+			return true
+		})
+		if wraps == 0 {
+			continue
+		}
+		// only signature lowerings create parameters
+		makesParam := false
+		for _, cl := range callsIn(fn.Decl.Body, false) {
+			if f := callee(info, cl); f != nil && f.Name() == "newParam" {
+				makesParam = true
+			}
+		}
+		if !makesParam {
+			continue
+		}
+		n++
+		if fn.Obj.Name() == "buildInterfaceWrapper" {
+			r.OK(rule, fn.Name(), "reviewed: interface thunk — forwards the pointers unchanged to the real method, whose own signature lowering records the declared types", c.pos(fn.Decl.Pos()), "reviewed exception")
+			continue
+		}
+		r.Check(records, rule, fn.Name(), "declared type of reference-wrapped parameters recorded", c.pos(fn.Decl.Pos()),
+			"a by-value struct / fixed array / large integer parameter is turned into a pointer parameter without remembering that it is by value: the callee then works on the caller's storage or on a pointer stored into an aggregate-sized slot (`fn modp(p: P) { p.X = 99; … }` returns garbage)")
+	}
+	r.Floor(rule, n, 2, "signature lowerings wrapping by-ref parameter types")
+	bfb := c.LookupFn(pkgMIRGen, "(*functionBuilder).buildFuncBody")
+	memcpy := c.LookupFn(pkgMIRGen, "(*functionBuilder).emitMemcpy")
+	if r.Anchor(rule, bfb != nil && memcpy != nil, "mir/gen buildFuncBody / emitMemcpy") {
+		ok := false
+		ast.Inspect(bfb.Decl.Body, func(x ast.Node) bool {
+			if ifs, isIf := x.(*ast.IfStmt); isIf && ifs.Init != nil && strings.Contains(exprStr(ifs.Init.(*ast.AssignStmt).Rhs[0]), "byValueParams") {
+				if nodeCallsDeep(bfb.Info(), ifs.Body, memcpy.Obj) {
+					ok = true
+				}
+			}
+			return true
+		})
+		r.Check(ok, rule, bfb.Name(), "by-value aggregates copied into an entry-block slot", c.pos(bfb.Decl.Pos()), "the callee no longer copies by-value aggregate parameters: writes to the parameter change the caller's value (or garbage is read)")
+	}
+}
+
+// C10.R6: negated integer literals in MIR lowering.
+func c10R6(c *Ctx, r *Report) {
+	const rule = "C10.R6"
+	r.Describe(rule, "mir/gen lowerExpr, case UnaryExpr: a negated integer literal is emitted as a constant of the expression's type before the operand is lowered; other operands are converted with castValue")
+	le := c.LookupFn(pkgMIRGen, "(*functionBuilder).lowerExpr")
+	cast := c.LookupFn(pkgMIRGen, "(*functionBuilder).castValue")
+	ec := c.LookupFn(pkgMIRGen, "(*functionBuilder).emitConst")
+	elc := c.LookupFn(pkgMIRGen, "(*functionBuilder).emitLargeConst")
+	if !r.Anchor(rule, le != nil && cast != nil && ec != nil && elc != nil, "mir/gen lowerExpr / castValue / emitConst / emitLargeConst") {
+		return
+	}
+	info := le.Info()
+	var clause *ast.CaseClause
+	ast.Inspect(le.Decl.Body, func(x ast.Node) bool {
+		if cc, ok := x.(*ast.CaseClause); ok && clause == nil {
+			for _, t := range caseTypes(info, cc) {
+				if nt := namedOf(t); nt != nil && nt.Obj().Name() == "UnaryExpr" {
+					clause = cc
+				}
+			}
+		}
+		return true
+	})
+	if !r.Anchor(rule, clause != nil, "lowerExpr: case *hir.UnaryExpr") {
+		return
+	}
+	// first lowerExpr(e.X) call position; a constant emission typed e.Type must come earlier (under the literal test)
+	var firstLower, firstConst token.Pos
+	hasCast := false
+	for _, st := range clause.Body {
+		ast.Inspect(st, func(x ast.Node) bool {
+			cl, ok := x.(*ast.CallExpr)
+			if !ok {
+				return true
+			}
+			if isCallTo(info, cl, le.Obj) && firstLower == token.NoPos && len(cl.Args) == 1 && strings.HasSuffix(exprStr(cl.Args[0]), ".X") {
+				firstLower = cl.Pos()
+			}
+			if (isCallTo(info, cl, ec.Obj) || isCallTo(info, cl, elc.Obj)) && firstConst == token.NoPos && len(cl.Args) >= 1 && strings.HasSuffix(exprStr(cl.Args[0]), ".Type") {
+				firstConst = cl.Pos()
+			}
+			if isCallTo(info, cl, cast.Obj) {
+				hasCast = true
+			}
+			return true
+		})
+	}
+	r.Check(firstConst != token.NoPos && firstLower != token.NoPos && firstConst < firstLower, rule, le.Name(), "negated literal emitted as a constant of the expression's type", c.pos(clause.Pos()),
+		"`- 5` is lowered as a unary minus on a 32-bit literal whatever the expected type: `let j: i64 = - 5` is rejected by the back end, `let j: i128 = - 5` crashes, `let g: i64 = - 9223372036854775808` prints garbage")
+	r.Check(hasCast, rule, le.Name(), "unary operand converted to the type of the operation", c.pos(clause.Pos()), "the operand of a unary operator keeps its own (default) numeric type while the operation is emitted with the expression's type")
+}
